@@ -66,12 +66,14 @@ type Frame struct {
 	unwind  bool                     // frame is unwinding a panic
 	visits  map[int]int              // loop header block index -> visits on this path (unrolling)
 	inCut   map[int]bool             // loop headers already cut on this path
+	heads   map[int]*Snapshot        // state at the head of a cut loop with explicit modifies (frame checks)
 	depth   int
 	// contract context (top frame only)
 	entry *Snapshot
 }
 
 type Snapshot struct {
+	mods  map[string]Sort // for loop heads: the declared modifies set
 	heaps map[string]*Term
 	alloc *Term
 	epoch int
@@ -179,6 +181,12 @@ func (st *State) clone() *State {
 		nf.inCut = make(map[int]bool, len(f.inCut))
 		for k, v := range f.inCut {
 			nf.inCut[k] = v
+		}
+		if f.heads != nil {
+			nf.heads = make(map[int]*Snapshot, len(f.heads))
+			for k, v := range f.heads {
+				nf.heads[k] = v
+			}
 		}
 		n.frames = append(n.frames, nf)
 	}
